@@ -407,7 +407,7 @@ RULE_FIELDS = {
     "address": ["10.0.0.0/8", "10.1.0.0/16", "127.*", "2001:db8::/32", "*"],
     "trust_username": ["true", "false"],
 }
-C17_SVCS = ["login.ex", "bot.ex", "comb.ex", "ipr.ex", "extra.ex"]
+C17_SVCS = ["login.ex", "bot.ex", "comb.ex", "ipr.ex", "extra.ex", "Auth.Ex", "Checker.ex", "ZED.EX"]     # configuration order ignores case
 C17_RULES = ["r1", "r2", "R3", "alpha", "Beta", "zz"]
 
 
@@ -548,7 +548,10 @@ def c17_s(draw, pid, tier, opts=None):
             sc.append(["X", cid, s, ("OK %s" % acct) if acct and draw(st.booleans()) else "OK", "cur"])
         sc.append(["H", cid])
         probes += sc
-    return {"confs": confs, "edits": kinds, "pre": pre, "probes": probes}
+    # how the operator installs the new file before SIGUSR1: rewritten in place, renamed over the old one, or the path
+    # given with -f is a symbolic link that is re-pointed
+    how = draw(st.sampled_from(["rewrite", "rewrite", "rename", "symlink"]))
+    return {"confs": confs, "edits": kinds, "pre": pre, "probes": probes, "how": how}
 
 
 def masked(lines):
@@ -564,8 +567,8 @@ def masked(lines):
     return sorted(out)
 
 
-def run_c17(confs, pre, probes, workdir, reload_):
-    d = dm.Daemon(ep.conf_text(confs[0] if reload_ else confs[-1]), workdir)
+def run_c17(confs, pre, probes, workdir, reload_, how="rewrite"):
+    d = dm.Daemon(ep.conf_text(confs[0] if reload_ else confs[-1]), workdir, how=how)
     steps = []
     try:
         try:
@@ -622,7 +625,7 @@ def eval_c17(case, ctx):
     res = CaseResult()
     wd = os.path.join(ctx["root"], "c")
     shutil.rmtree(wd, ignore_errors=True)
-    a, err = run_c17(case["confs"], case["pre"], case["probes"], wd, True)
+    a, err = run_c17(case["confs"], case["pre"], case["probes"], wd, True, how=case.get("how", "rewrite"))
     shutil.rmtree(wd, ignore_errors=True)
     b, errb = run_c17(case["confs"], [], case["probes"], wd, False)
     if b is None:
